@@ -12,6 +12,9 @@ def run(ctx):
     c.tlc_l1(ctx, "Indexes.tla", "MC_Indexes_w.cfg", expect_violation="Reach_IndexedSpecialFloat", workers=2)
     if not q:   # design-level confirmation of the repaired defect: Debug-rendered keys break index independence
         c.tlc_l1(ctx, "Indexes.tla", "MC_Indexes_dev.cfg", expect_violation="IndexIndependent", workers=2)
+    # the alpha index buckets are implementation state next to the fact list: EVERY sequence of insert / create_index / drop_index
+    # to depth 7 over four x values (0.0, -0.0, 1, absent)
+    c.graph_leg(ctx, "Indexes.tla", "indexes", "Gen_Indexes_alpha.cfg", {"MaxFacts": 4}, 0, 8, 7 if q else 8, histbudget=6000000)
     if q:
         c.graph_leg(ctx, "Indexes.tla", "indexes", "Gen_Indexes.cfg", {"MaxFacts": 2}, 1500, 10, 3,
                     "Sim_Indexes.cfg", 1200, 11, sim_cfgobj={"MaxFacts": 5})
